@@ -391,9 +391,50 @@ pub fn succinct(rec: &mut Rec, kmax: usize) {
     rec.sample("scp", format!("SCP: every challenge vector in {{1,-1,r1,0}}^k, k = 0..{}, at 7 points", kmax));
 }
 
+
+/// Long challenge lists (k = 8..12, 14 in the thorough tier: 2^k coefficients) with a few structured challenge vectors,
+/// computed on the calling thread and inside private rayon pools of 2..16 threads: sizes at which an implementation may
+/// switch to a chunked / parallel expansion, and pool sizes that are not powers of two.
+pub fn succinct_large(rec: &mut Rec, kmax: usize) {
+    let pts: Vec<F> = field_alphabet::<F>(rec.seed).into_iter().map(|(_, f)| f).collect();
+    let r = rho_stream::<F>(rec.seed, 77, kmax + 1);
+    for k in 8..=kmax {
+        for (vn, ch) in [
+            ("generic", r[..k].to_vec()),
+            ("alternating", (0..k).map(|i| if i % 2 == 0 { F::one() } else { -F::one() }).collect::<Vec<F>>()),
+            ("with-zero", (0..k).map(|i| if i == k / 2 { F::zero() } else { r[i] }).collect::<Vec<F>>()),
+        ] {
+            for threads in [0usize, 2, 3, 4, 5, 6, 7, 8, 12, 16] {
+                let id = format!("SCP/large/k={}/{}/threads={}", k, vn, threads);
+                if !rec.take(&id) {
+                    continue;
+                }
+                rec.dim("family", "succinct-check-polynomial");
+                rec.op(2);
+                let want = check_poly_coeffs(&ch);
+                let scp = SuccinctCheckPolynomial::<F>(ch.clone());
+                let ptsr = &pts;
+                let scpr = &scp;
+                let work = move || (scpr.compute_coeffs(), ptsr.iter().map(|z| scpr.evaluate(*z)).collect::<Vec<F>>());
+                let (coeffs, evals) = if threads == 0 { work() } else { with_threads(threads, work) };
+                let mut ok = coeffs.len() == 1 << k && coeffs == want;
+                for (z, e) in pts.iter().zip(evals.iter()) {
+                    ok &= *e == horner(&want, *z);
+                }
+                rec.class(if ok { "scp-ok" } else { "scp-bad" });
+                if !ok {
+                    let first = coeffs.iter().zip(want.iter()).position(|(a, b)| a != b);
+                    rec.violation("C16/SuccinctCheckPolynomial/evaluate-vs-coefficients", &id, format!("k = {}, {} challenges, {}: compute_coeffs() / evaluate() differ from the naive expansion (first differing coefficient: {:?}, length {})", k, vn, if threads == 0 { "calling thread".to_string() } else { format!("pool of {} threads", threads) }, first, coeffs.len()));
+                }
+            }
+        }
+    }
+}
+
 pub fn run(rec: &mut Rec) {
     let t = rec.thorough();
     lc_ops(rec, if t { 5 } else { 4 });
     query_sets(rec);
     succinct(rec, if t { 9 } else { 7 });
+    succinct_large(rec, if t { 14 } else { 12 });
 }
